@@ -97,13 +97,6 @@ func (r flowResult) clean(base int) bool {
 	return !r.agentProc && !r.agentList && r.frames == 0 && len(r.gor) <= base && r.timeout == ""
 }
 
-// onlyTracerDirt: everything is clean except tracer maps.
-func (r flowResult) onlyTracerDirt(base int) bool {
-	c := r
-	c.tracers = nil
-	return c.clean(base) && !r.clean(base)
-}
-
 func runFlow(p flowPlan) (res flowResult, base int) {
 	base = len(uniflowGoroutines())
 
@@ -215,8 +208,10 @@ func runFlow(p flowPlan) (res flowResult, base int) {
 		return r
 	}
 	// Residue, when there is any, is permanent; a clean state is normally reached within
-	// milliseconds. Poll for 1 s; go on for up to 10 s only when the dirt is not the listed
-	// finding (tracer entries after an aborted flight), so that load cannot cause a false alarm.
+	// milliseconds. Poll for up to 10 s so that load cannot cause a false alarm (tracer entries
+	// after an aborted flight used to be a listed finding and were given up on after 1 s; since
+	// the nodes drop what they still await when a writer's channel or their reader closes they are
+	// a violation like any other residue).
 	start := time.Now()
 	for {
 		res = look()
@@ -224,7 +219,7 @@ func runFlow(p flowPlan) (res flowResult, base int) {
 			break
 		}
 		el := time.Since(start)
-		if el > 10*time.Second || (el > time.Second && p.abort && res.onlyTracerDirt(base)) {
+		if el > 10*time.Second {
 			break
 		}
 		time.Sleep(2 * time.Millisecond)
